@@ -264,10 +264,14 @@ def run(ck):
         probes = []
         def cb(iteration):
             probes.append((torch.get_num_threads(), os.environ.get(ENV)))
-        model = xr.xRFM(rfm_params=xr.default_rfm_params(kernel=kern, iters=1, diag=bool(i % 2), reg=1e-2, bandwidth=3.0,
+        model = xr.xRFM(rfm_params=xr.default_rfm_params(kernel=kern, iters=(0 if (i // 5) % 2 == 0 and i % 5 in (0, 2) else 1), diag=bool(i % 2), reg=1e-2, bandwidth=3.0,
                                                          bandwidth_mode='adaptive' if (i % 3 == 0 and kern != 'sum_power_laplace') else 'constant', **extra),
                         max_leaf_size=L, verbose=False, tuning_metric=metric, n_threads=n_threads, split_temperature=soft,
                         use_temperature_tuning=(soft is None and i % 2 == 0), callback=cb, refill_size=15, temp_tuning_space=[0.0, 0.5])
+
+        if (i // 5) % 2 == 0 and i % 5 in (0, 2):
+            # plain kernel ridge leaves: no AGOP is ever computed, the leaf keeps M = None and the transform returns its argument itself
+            model.rfm_params['fit'].pop('get_agop_best_model', None)
 
         def snap(objs):
             out = []
@@ -313,8 +317,28 @@ def run(ck):
         check('predict', lambda: model.predict(Q), [Q])
         if task.startswith('class'):
             check('predict_proba', lambda: model.predict_proba(Q), [Q])
-        elif soft is None and model.split_temperature is None:
+        elif soft is None:
+            tuned_T = model.split_temperature
+            model.split_temperature = None          # gradients are defined for hard routing; the tuned value is put back below
             check('get_grads', lambda: model.get_grads(Q), [Q])
+            # the gradient API must leave the training data alone as well (leaf centers may alias the caller's matrix)
+            before_tr = snap(args)
+            with xr.quiet():
+                for t in model.trees:
+                    stack = [t]
+                    while stack:
+                        nd = stack.pop()
+                        if nd['type'] == 'leaf':
+                            qq = torch.tensor(np.asarray(Q, dtype=np.float32)) if not torch.is_tensor(Q) else Q
+                            cen0 = nd['model'].centers.detach().clone()
+                            nd['model'].get_grads(qq)
+                            if not torch.equal(cen0, nd['model'].centers):
+                                ck.violation(f'RFM.get_grads modified the leaf model\'s own centers on {desc}', dict(desc), key=json.dumps(dict(site='caller-data', call='leaf.get_grads', which='centers')))
+                        else:
+                            stack += [nd['left'], nd['right']]
+            if snap(args) != before_tr or snap([Q]) != snap([Q]):
+                ck.violation(f'get_grads modified the caller\'s training data on {desc}', dict(desc), key=json.dumps(dict(site='caller-data', call='get_grads', which='training')))
+            model.split_temperature = tuned_T
         check('get_state_dict', lambda: model.get_state_dict(), args)
         torch.set_num_threads(t0)
         os.environ.pop(ENV, None)
